@@ -30,7 +30,8 @@ DECIDING = ['to_sphere_quotient', 'to_sphere_coordinate', 'to_ball', 'to_positiv
             'to_stiefel_polar', 'to_stiefel_choleskyL', 'to_stiefel_qr', 'to_stiefel_euler',
             'forward/PositiveReal', 'forward/OpenInterval', 'forward/Trace1PSD', 'forward/SymmetricMatrix', 'forward/Ball', 'forward/Sphere',
             'forward/DiscreteProbability', 'forward/SpecialOrthogonal', 'forward/Stiefel', 'forward/SeparableDensityMatrix', 'forward/QuantumChannel',
-            'relation/batched-vs-per-sample', 'relation/module-vs-functional']
+            'relation/batched-vs-per-sample', 'relation/module-vs-functional', 'history/argument-not-mutated', 'history/edit-result-then-call-again',
+            'history/layout']
 
 EPS = {np.dtype('float32'): 1.2e-7, np.dtype('float64'): 2.3e-16, np.dtype('complex64'): 1.2e-7, np.dtype('complex128'): 2.3e-16}
 
@@ -169,8 +170,8 @@ class Mon:
                 ctx.check(bool(np.all(a[m] > 0)), f'{key}/not-positive', f'{key}: output is not strictly positive for moderate theta', lambda: mon.wit(c))
             return post
 
-        ctx.attach(I, 'to_positive_real_softplus', post=post_positive('to_positive_real_softplus'), point='to_positive_real_softplus')
-        ctx.attach(I, 'to_positive_real_exp', post=post_positive('to_positive_real_exp'), point='to_positive_real_exp')
+        ctx.attach(I, 'to_positive_real_softplus', post=post_positive('to_positive_real_softplus'), point='to_positive_real_softplus', immutable_args=True)
+        ctx.attach(I, 'to_positive_real_exp', post=post_positive('to_positive_real_exp'), point='to_positive_real_exp', immutable_args=True)
 
         def post_interval(c):
             if c.exc is not None:
@@ -188,7 +189,7 @@ class Mon:
             if upper > lower:
                 ctx.check(bool(np.all(a[m] > lower) and np.all(a[m] < upper)), f'{key}/not-open', 'to_open_interval: value not strictly inside for moderate theta', lambda: mon.wit(c))
 
-        ctx.attach(I, 'to_open_interval', post=post_interval, point='to_open_interval')
+        ctx.attach(I, 'to_open_interval', post=post_interval, point='to_open_interval', immutable_args=True)
 
         # ------------------------------------------------ sphere / ball
         def post_sphere(key, coordinate):
@@ -208,8 +209,8 @@ class Mon:
                 mon.batched_vs_single(key, c, tol, mon.thr(c.args[0]))
             return post
 
-        ctx.attach(I, 'to_sphere_quotient', post=post_sphere('to_sphere_quotient', False), point='to_sphere_quotient')
-        ctx.attach(I, 'to_sphere_coordinate', post=post_sphere('to_sphere_coordinate', True), point='to_sphere_coordinate')
+        ctx.attach(I, 'to_sphere_quotient', post=post_sphere('to_sphere_quotient', False), point='to_sphere_quotient', immutable_args=True)
+        ctx.attach(I, 'to_sphere_coordinate', post=post_sphere('to_sphere_coordinate', True), point='to_sphere_coordinate', immutable_args=True)
 
         def post_ball(c):
             if c.exc is not None:
@@ -226,7 +227,7 @@ class Mon:
                       lambda: {**mon.wit(c), 'max_norm': float(nrm.max())})
             mon.batched_vs_single(key, c, tol_of(c.args[0], th.shape[-1]), mon.thr(c.args[0]))
 
-        ctx.attach(I, 'to_ball', post=post_ball, point='to_ball')
+        ctx.attach(I, 'to_ball', post=post_ball, point='to_ball', immutable_args=True)
 
         # ------------------------------------------------ probability simplex
         def post_prob(key):
@@ -244,8 +245,8 @@ class Mon:
                 mon.batched_vs_single(key, c, tol, mon.thr(c.args[0]))
             return post
 
-        ctx.attach(I, 'to_discrete_probability_softmax', post=post_prob('to_discrete_probability_softmax'), point='to_discrete_probability_softmax')
-        ctx.attach(I, 'to_discrete_probability_sphere', post=post_prob('to_discrete_probability_sphere'), point='to_discrete_probability_sphere')
+        ctx.attach(I, 'to_discrete_probability_softmax', post=post_prob('to_discrete_probability_softmax'), point='to_discrete_probability_softmax', immutable_args=True)
+        ctx.attach(I, 'to_discrete_probability_sphere', post=post_prob('to_discrete_probability_sphere'), point='to_discrete_probability_sphere', immutable_args=True)
 
         # ------------------------------------------------ density matrices
         def check_psd(key, c, a, dim, rank, size, is_real):
@@ -302,7 +303,7 @@ class Mon:
             w = np.linalg.eigvalsh((a + hconj(a)) / 2)
             mon.judge(f'{key}/psd', max(0.0, -float(w.min())), tol, f'{key}: negative eigenvalue', lambda: mon.wit(c), thr)
 
-        ctx.attach(I, 'symmetric_matrix_to_trace1PSD', post=post_sym2psd, point='symmetric_matrix_to_trace1PSD')
+        ctx.attach(I, 'symmetric_matrix_to_trace1PSD', post=post_sym2psd, point='symmetric_matrix_to_trace1PSD', immutable_args=True)
 
         # ------------------------------------------------ symmetric / Hermitian matrices
         def post_symmetric(c):
@@ -327,7 +328,7 @@ class Mon:
                 mon.judge(f'{key}/norm-one', np.abs(np.linalg.norm(a, axis=(-2, -1)) - 1).max(), tol, f'{key}: Frobenius norm is not one', lambda: mon.wit(c), thr)
             mon.batched_vs_single(key, c, tol, thr)
 
-        ctx.attach(I, 'to_symmetric_matrix', post=post_symmetric, point='to_symmetric_matrix')
+        ctx.attach(I, 'to_symmetric_matrix', post=post_symmetric, point='to_symmetric_matrix', immutable_args=True)
 
         # ------------------------------------------------ SO / SU
         def post_so(key, cayley):
@@ -356,8 +357,8 @@ class Mon:
                 mon.batched_vs_single(key, c, tol, thr)
             return post
 
-        ctx.attach(I, 'to_special_orthogonal_exp', post=post_so('to_special_orthogonal_exp', False), point='to_special_orthogonal_exp')
-        ctx.attach(I, 'to_special_orthogonal_cayley', post=post_so('to_special_orthogonal_cayley', True), point='to_special_orthogonal_cayley')
+        ctx.attach(I, 'to_special_orthogonal_exp', post=post_so('to_special_orthogonal_exp', False), point='to_special_orthogonal_exp', immutable_args=True)
+        ctx.attach(I, 'to_special_orthogonal_cayley', post=post_so('to_special_orthogonal_cayley', True), point='to_special_orthogonal_cayley', immutable_args=True)
 
         # ------------------------------------------------ Stiefel
         def gram_cond(th, dim, rank, layout):
@@ -420,10 +421,10 @@ class Mon:
                 mon.batched_vs_single(key, c, tol * 10, thr)
             return post
 
-        ctx.attach(S, 'to_stiefel_polar', post=post_stiefel('to_stiefel_polar', 'full'), point='to_stiefel_polar')
-        ctx.attach(S, 'to_stiefel_qr', post=post_stiefel('to_stiefel_qr', None), point='to_stiefel_qr')
-        ctx.attach(S, 'to_stiefel_choleskyL', post=post_stiefel('to_stiefel_choleskyL', 'chol'), point='to_stiefel_choleskyL')
-        ctx.attach(S, 'to_stiefel_euler', post=post_stiefel('to_stiefel_euler', None), point='to_stiefel_euler')
+        ctx.attach(S, 'to_stiefel_polar', post=post_stiefel('to_stiefel_polar', 'full'), point='to_stiefel_polar', immutable_args=True)
+        ctx.attach(S, 'to_stiefel_qr', post=post_stiefel('to_stiefel_qr', None), point='to_stiefel_qr', immutable_args=True)
+        ctx.attach(S, 'to_stiefel_choleskyL', post=post_stiefel('to_stiefel_choleskyL', 'chol'), point='to_stiefel_choleskyL', immutable_args=True)
+        ctx.attach(S, 'to_stiefel_euler', post=post_stiefel('to_stiefel_euler', None), point='to_stiefel_euler', immutable_args=True)
 
         # ------------------------------------------------ Module classes: forward() == functional(theta) + constraints
         import torch
@@ -631,6 +632,7 @@ class Driver:
         self.part = shard.get('part', 0)
         self.nparts = shard.get('nparts', 1)
         self.counter = 0
+        self.ncall = 0
         self.mon = None
         self.dims = [2, 3, 4] if ctx.tier == 'quick' else [2, 3, 4, 5, 6]
         self.nseed = 1 if ctx.tier == 'quick' else 2
@@ -674,7 +676,21 @@ class Driver:
                                 ctx.case(name, desc, backend, np.dtype(np_dtype).name, th, nontrivial=bool(np.any(th != 0)),
                                          sample=case if rng.random() < 0.0015 else None)
                                 with ctx.guard(name):
-                                    f(t, *extra_args)
+                                    self.ncall += 1
+                                    if backend == 'numpy' and self.ncall % 5 == 0:
+                                        # history: call, edit the result in place, call again with the same theta object
+                                        ctx.history_probe(name, f, t, *extra_args)
+                                    elif backend == 'numpy' and self.ncall % 5 == 1 and th.ndim >= 2:
+                                        # memory layout: a non-contiguous view with the same values must give the same point
+                                        buf = np.zeros(th.shape[:-1] + (2 * th.shape[-1],), dtype=th.dtype)
+                                        buf[..., ::2] = th
+                                        r_view = f(buf[..., ::2], *extra_args)
+                                        r_ref = f(th, *extra_args)
+                                        ctx.check(np.array_equal(to_numpy(r_view), to_numpy(r_ref), equal_nan=True), f'{name}/layout-dependent',
+                                                  f'{name}: a non-contiguous view of theta gives a different result than a contiguous copy with the same values',
+                                                  None, point='history/layout')
+                                    else:
+                                        f(t, *extra_args)
 
     def module(self, name, ctor, kwargs_list, scales=(None, 3.0, 30.0), precheck=None):
         ctx, torch = self.ctx, self.torch
